@@ -142,6 +142,7 @@ Step(sem, st, op) ==
             ELSE IF rd.status # "ok" THEN rd
             ELSE IF sem # "I" /\ rd.st.taint > st1.taint THEN R3(st, Missing, "wild")   \* both sides evaluated before the store
             ELSE IF rd.res.t = "fresh" THEN R3(st, Missing, "wild")     \* the right side is the cell the left side just padded
+            ELSE IF sem # "I" /\ GMakesCycle(rd.st, target, rd.res, Fuel) THEN R3(st, Missing, "wild")
             ELSE IF rd.res.t = "unset" THEN R3(st, Missing, "open")
             ELSE AsP(sem, rd.st, target, GCopy(rd.res))
          ELSE LET m == MkLit(sem, st, op.r) IN AsP(sem, m.st, op.p, m.val)
